@@ -161,6 +161,16 @@ def build(tier):
         if mk is None:
             raise ExtractError("`match kind {` not found in %s" % hname)
         close = sl.close(mk + 2)
+        # statements of the host before the dispatch (a guard there dominates every arm)
+        body_open = None
+        for k in idx:
+            if toks[k].text == "{" and toks[k].start >= host.sig_end:
+                body_open = k
+                break
+        sl.out = []
+        sl.block(body_open + 1, mk, "    ")
+        prefix_out = list(sl.out)
+        prefix_mixed = sl.n_mixed
         j = mk + 3
         seen = {}
         while j < close:
@@ -195,8 +205,13 @@ def build(tier):
             name = "_".join(names)[:60]
             seen[name] = seen.get(name, 0) + 1
             gname = "arm_%s_%s" % (short, name) + ("_%d" % seen[name] if seen[name] > 1 else "")
-            sl.out = []
+            sl.out = list(prefix_out)
+            before_mixed = sl.n_mixed
             sl.block(a2, b2, "    ")
+            if prefix_mixed or sl.n_mixed > before_mixed:
+                # the sandbox flag is tested together with something the slice cannot see: a failure
+                # in this arm is inconclusive (undecided unless a witness reproduces it)
+                u.unspecified_loops[gname] = 1
             line0 = src.line_of(toks[arrow].start)
             u.fn_props[gname] = c24
             u.safety_props[gname] = c24
